@@ -763,6 +763,11 @@ class Lemmas:
                 if "Signal::is_input" in calls and any("PartialEq" in x and x.endswith("::eq") for x in calls):
                     good = True
             ok &= self._ob("RESIDUAL", "C-column-must-be-input", good, "any(sig.name == name && sig.is_input())", "check_and_consume_expected_inputs no longer tests name equality and is_input()")
+            # ... and exactly that: the decision tables of the check (shared with C11), not just the presence of the two tests
+            from . import c11
+            n0 = len(self.chk.violations)
+            c11.condition_rules(self.chk.only(("check_expected_inputs", "expected-inputs:exact-loop-table")), P)
+            ok &= len(self.chk.violations) == n0
             ii = P.body("Signal::is_input")
         # expand_x leaves no input X, expand_c no input C: loop exit only on find_map == None
         ex = P.body(TESTDATA + "::expand_x")
